@@ -1039,12 +1039,46 @@ pub fn random_scen(r: &mut Rng, family: usize) -> Scen {
       Scen { name: names[family - 2], kind: Kind::Pipe(two_input(op)), n_hot: 2, initial_subs: 1, threads, workers: 0, worker_spins: 0 }
     }
     9 => {
+      // one shape in five: two hot inners running at the limit, a cold synchronous inner waiting
+      // behind them, both hot inners completing on their own threads (two completions meeting in
+      // the hand-over to the waiting inner)
+      if r.chance(1, 5) {
+        let table = vec![
+          Chain::new(Src::Hot(1), vec![Op::Spy(20)]),
+          Chain::new(Src::Hot(2), vec![Op::Spy(21)]),
+          Chain::new(Src::Iter(vec![V::I(9000), V::I(9001)]), vec![Op::Spy(22)]),
+        ];
+        let chain = Chain::new(Src::Hot(0), vec![Op::Map(MapF::Add(-1001)), Op::MergeAll(2, table)]);
+        let mut t0 = vec![TOp::Next(0), TOp::Next(0), TOp::Next(0)];
+        if r.chance(3, 4) {
+          t0.push(TOp::Complete(0));
+        }
+        let mut t1 = vec![TOp::Complete(1)];
+        if r.chance(1, 2) {
+          t1.insert(0, TOp::Next(1));
+        }
+        let mut t2 = vec![TOp::Complete(2)];
+        if r.chance(1, 2) {
+          t2.insert(0, TOp::Next(2));
+        }
+        return Scen { name: "merge_all_threads", kind: Kind::Pipe(chain), n_hot: 3, initial_subs: 1, threads: vec![t0, t1, t2], workers: 0, worker_spins: 0 };
+      }
       // merge_all_threads: thread 0 drives the outer (indices), others the hot inners
       // 2-3 hot inners (so that inners really queue up behind the limit), limit biased to 1
       let nt = 3 + r.below(2);
       let k = nt - 1;
       let limit = if r.chance(1, 2) { 1 } else { 1 + r.below(k + 1) };
-      let table: Vec<Chain> = (0..k).map(|i| Chain::new(Src::Hot(i + 1), vec![Op::Spy(20 + i as u32)])).collect();
+      // mostly hot inners; some cold synchronous ones (they emit and complete inside their subscription,
+      // i.e. inside the hand-over from a finished inner when they had to wait for a slot)
+      let table: Vec<Chain> = (0..k)
+        .map(|i| {
+          let src = match r.below(4) {
+            0 => Src::Iter(vec![V::I(9000 + 10 * i as i64), V::I(9001 + 10 * i as i64)]),
+            _ => Src::Hot(i + 1),
+          };
+          Chain::new(src, vec![Op::Spy(20 + i as u32)])
+        })
+        .collect();
       let chain = Chain::new(Src::Hot(0), vec![Op::Map(MapF::Add(-1001)), Op::MergeAll(limit, table)]);
       // outer items are (1)*1000+counter -> map to index counter-1
       let mut threads = vec![{
